@@ -110,7 +110,13 @@ class ParaSpace(Space):
                 if width - room >= 1:
                     yield (ci, ks[:i] + ks[i + 1:], s2, width - room, sem)
         for i in range(len(ks)):
-            for rep in ((0,) if getattr(self, "hazard_rep", None) is None else (0, self.hazard_rep)):
+            reps = [0]
+            if getattr(self, "hazard_rep", None) is not None:
+                reps.append(self.hazard_rep)
+            cr = getattr(self, "class_rep", {}).get(ks[i])
+            if cr is not None:
+                reps.append(cr)
+            for rep in reps:
                 if ks[i] != rep and (rep == 0 or ks[i] > rep):
                     yield (ci, ks[:i] + (rep,) + ks[i + 1:], seps, width, sem)
                     room = len(A[ks[i]]) - len(A[rep])
